@@ -206,7 +206,7 @@ static bool same(const RV& a, const JSON& j, string& why) {
     case RV::INT: if (!j.is_int() || j.as_int() != a.i) { why = "expected the integer " + to_string(a.i) + ", got " + j.serialize(); return false; } return true;
     case RV::FLT:
       if (!j.is_float()) { why = "expected a float (" + to_string(a.d) + "), got the " + string(j.is_int() ? "integer " : "value ") + j.serialize(); return false; }
-      if (fabs(j.as_float() - a.d) > 1e-6 * fabs(a.d) + 1e-300) { why = "float value differs (not part of the proof; native oracle only)"; return false; }
+      if (fabs(j.as_float() - a.d) > 1e-6 * fabs(a.d) + 1e-320) { why = "float value differs (not part of the proof; native oracle only)"; return false; }
       return true;
     case RV::STR: if (!j.is_string() || j.as_string() != a.s) { why = "expected the string '" + a.s + "'"; return false; } return true;
     case RV::LIST:
@@ -364,7 +364,7 @@ int main(int argc, char** argv) {
       for (size_t k = 0; k + len <= 8; k++) { string s = all.substr(k, len); bool dup = false; for (auto& x : texts) dup |= x == s; if (!dup) texts.push_back(s); }
     // counterexamples of loop-contract proofs pass through havocked loop states: the bytes need not drive the real code down the
     // same path; the witness texts of the defect classes of this branch are tried as well
-    if (a.mode == "number") for (const char* w : {"5e-1", "1E+2", "1e30", "-2.5e3", "0x1F", "-0", "12.5", "100000000000000000000", "9223372036854775808", "-9223372036854775809", "-9223372036854775808", "9223372036854775807", "18446744073709551616"}) texts.push_back(w);
+    if (a.mode == "number") for (const char* w : {"5e-1", "1E+2", "1e30", "-2.5e3", "0x1F", "-0", "12.5", "100000000000000000000", "9223372036854775808", "-9223372036854775809", "-9223372036854775808", "9223372036854775807", "18446744073709551616", "3e-308", "2.2250738585072014e-308", "1e308", "1.5e-310", "7e-300"}) texts.push_back(w);
     if (a.mode == "string") for (const char* w : {"\"\\n\"", "\"\\u00e9\"", "\"\\u0100\"", "\"\\q\"", "\"a\\/b\""}) texts.push_back(w);
   } else if (a.mode == "list" || a.mode == "dict") {
     string t = from_tokens(a.u("g_tok"), (int)a.u("g_nt"), a.mode == "dict");
